@@ -2741,18 +2741,62 @@ func c11RuleL(w *World, r *Report, subjects []*ssa.Function, derefs map[*ssa.Fun
 			}
 			if blockReachesForward(nilSucc, func(i ssa.Instruction) bool {
 				c, ok := i.(ssa.CallInstruction)
-				_ = c
-				return ok && isAddSyntaxError(i)
+				if !ok {
+					return false
+				}
+				// the diagnostic itself, or a helper that resolves the name and reports the miss (`lookupPacket(name, ..)`)
+				return isAddSyntaxError(i) || w.mayReport(calleeOf(c), 0, map[*ssa.Function]bool{})
 			}) {
-				// coverage of inner objects: the validating function must also look at inline packets
+				// coverage of inner objects: the validating function must also look at inline packets - itself, or the walker that
+				// hands it the fields (its callers up to three levels, and what those call)
 				covers := false
-				forEachInstr(fn, func(_ *ssa.BasicBlock, i ssa.Instruction) {
-					if f2, ok := i.(*ssa.FieldAddr); ok {
-						if _, n2, _, _ := fieldOf(f2); n2 == "IsIner" {
-							covers = true
+				readsIsIner := func(g *ssa.Function) bool {
+					hit := false
+					forEachInstr(g, func(_ *ssa.BasicBlock, i ssa.Instruction) {
+						if f2, ok := i.(*ssa.FieldAddr); ok {
+							if _, n2, _, _ := fieldOf(f2); n2 == "IsIner" {
+								hit = true
+							}
 						}
+					})
+					return hit
+				}
+				covers = readsIsIner(fn)
+				if !covers {
+					level := []*ssa.Function{fn}
+					seenUp := map[*ssa.Function]bool{fn: true}
+					for d := 0; d < 3 && !covers; d++ {
+						var next []*ssa.Function
+						for _, g := range level {
+							n := w.CallGraph().Nodes[g]
+							if n == nil {
+								continue
+							}
+							for _, e := range n.In {
+								up := e.Caller.Func
+								if up == nil || seenUp[up] || !w.isRepoLike(up) {
+									continue
+								}
+								seenUp[up] = true
+								next = append(next, up)
+								if up.Blocks == nil {
+									continue
+								}
+								if readsIsIner(up) {
+									covers = true
+								}
+								forEachInstr(up, func(_ *ssa.BasicBlock, i ssa.Instruction) {
+									if c, ok := i.(ssa.CallInstruction); ok {
+										if h := c.Common().StaticCallee(); h != nil && h.Blocks != nil && w.isSubjectFunc(h) && readsIsIner(h) {
+											covers = true
+										}
+									}
+								})
+							}
+						}
+						level = next
 					}
-				})
+				}
 				if lk != "ObjectFieldAttribute.RefPacket" {
 					covers = true
 				}
@@ -2953,6 +2997,30 @@ func normMapDesc(m ssa.Value) string {
 	return mapDesc(m)
 }
 
+// mayReport: g (or something it calls, three levels) raises a diagnostic on some path.
+func (w *World) mayReport(g *ssa.Function, depth int, seen map[*ssa.Function]bool) bool {
+	if g == nil || g.Blocks == nil || depth > 3 || seen[g] || !w.isSubjectFunc(g) {
+		return false
+	}
+	seen[g] = true
+	hit := false
+	forEachInstr(g, func(_ *ssa.BasicBlock, i ssa.Instruction) {
+		if hit {
+			return
+		}
+		if isAddSyntaxError(i) {
+			hit = true
+			return
+		}
+		if c, ok := i.(ssa.CallInstruction); ok {
+			if w.mayReport(calleeOf(c), depth+1, seen) {
+				hit = true
+			}
+		}
+	})
+	return hit
+}
+
 // validatedLookups: (map, key path) pairs that parse-phase code resolves with a checked lookup whose miss edge reports a diagnostic.
 func (w *World) validatedLookups() map[string]bool {
 	out := map[string]bool{}
@@ -2969,7 +3037,9 @@ func (w *World) validatedLookups() map[string]bool {
 				}
 			}
 			if reports {
-				out[normMapDesc(t.lookup.X)+"|"+keyPath(t.lookup.Index)] = true
+				for _, kp := range w.keyPathsOf(fn, t.lookup.Index) {
+					out[normMapDesc(t.lookup.X)+"|"+kp] = true
+				}
 			}
 		}
 	}
